@@ -42,6 +42,7 @@ def _mk_exc(kind):
     return _socket.gaierror(-2, "injected resolver failure")
 
 
+HISTORY = tuple(SHARD.get("history", ("get", "set", "get", "get")))
 F1 = SHARD.get("f1", 0)                       # first failing call kind: a shard parameter
 F2SET = tuple(SHARD.get("f2set", range(10)))   # candidates for the second failing call kind
 OMAX = SHARD.get("omax", 2)
@@ -98,16 +99,24 @@ def h_lifecycle(o1: int, f2: int, o2: int, kind: int, ct: int, to: int, nodelay:
     else:
         c = HashClient([server_spec], retry_attempts=0, dead_timeout=0, retry_timeout=0,
                        use_pooling=(STACK == "hashp"), **kw)
-    history = ("get", "set", "get", "get")
-    last_ok_sock = None
+    history = HISTORY
+    nsock_at_failure = None
     for k, name in enumerate(history, 1):
         net.begin_call(k)
         fired_before = len(net.env_fired)
         try:
             if name == "get":
                 c.get("k1")
-            else:
+            elif name == "set":
                 c.set("k1", b"zz")
+            elif name == "delete_nr":
+                c.delete("k1", noreply=True)
+            elif name == "touch_nr":
+                c.touch("k1", 9, noreply=True)
+            elif name == "set_nr":
+                c.set("k1", b"zz", noreply=True)
+            else:
+                c.incr("n", 1, noreply=False)
             raised = None
         except Exception as e:
             raised = e
@@ -117,9 +126,14 @@ def h_lifecycle(o1: int, f2: int, o2: int, kind: int, ct: int, to: int, nodelay:
         if raised is not None and not fired_now and not (STACK.startswith("hash")):
             return viol(TRANSPORT, STACK, "plan", plan, "call", k, name, "raised", type(raised).__name__, raised,
                         "although no injected failure struck during it (the previous failure was not cleaned up)")
+        if raised is not None:
+            nsock_at_failure = len(net.sockets)
         if raised is None and not fired_now:
-            # a clean call after a failed one must run on a socket that is open, connected under connect_timeout
+            # a clean call after a failed one must run on a fresh socket, connected under connect_timeout
             live = [s for s in net.sockets if s.open]
+            if nsock_at_failure is not None and live and live[0].sid < nsock_at_failure:
+                return viol(TRANSPORT, STACK, "plan", plan, "call", k, name, "ran on socket", live[0].sid,
+                            "which already existed when an earlier call failed (no fresh connection)")
             if len(live) != 1:
                 return viol(TRANSPORT, STACK, "plan", plan, "after successful call", k, len(live), "sockets are open")
             if live[0].timeout_at_connect != ct:
@@ -157,11 +171,19 @@ def shards(tier):
             S.append(dict(fn="h_lifecycle", timeout=1800 if thorough else 400, shard=dict(
                 transport=tr, stack=st, f1=f1, omax=3 if thorough else 2,
                 f2set=list(range(10)) if thorough else [0, 2, 6, 8])))
+            if (tr, st) in (("tcp1", "client"), ("tcp2", "hash")) or thorough:
+                # histories with noreply commands: a failed send must still close the connection
+                S.append(dict(fn="h_lifecycle", timeout=1800 if thorough else 400, shard=dict(
+                    transport=tr, stack=st, f1=f1, omax=3 if thorough else 2, history=["delete_nr", "get", "touch_nr", "incr"],
+                    f2set=list(range(10)) if thorough else [0, 7])))
+                S.append(dict(fn="h_lifecycle", timeout=1800 if thorough else 400, shard=dict(
+                    transport=tr, stack=st, f1=f1, omax=3 if thorough else 2, history=["set_nr", "set_nr", "get", "delete_nr"],
+                    f2set=list(range(10)) if thorough else [0, 7])))
     return S
 
 
 BOUNDS = {
-    "quick": "4-call history (get, set, get, get) then close(); first failure: any of {none, getaddrinfo, socket(), "
+    "quick": "4-call histories (get, set, get, get; and two with noreply delete/touch/set on Client and HashClient) then close(); first failure: any of {none, getaddrinfo, socket(), "
              "setsockopt, wrap_socket, settimeout, connect, sendall, recv, close} (shard) at a symbolic occurrence 0..2; "
              "second failure: symbolic among {none, socket(), connect, recv} at a symbolic occurrence 0..2; symbolic error kind {OSError, socket.timeout, gaierror}; connect_timeout in 1..3 and timeout in 4..6 "
              "symbolic, no_delay symbolic; transports TCP with 1/2 resolved addresses, UNIX, TLS on Client; PooledClient "
